@@ -104,7 +104,7 @@ def cases(tier, seed):
                     for j in range(T):
                         for k in range(K):
                             out.append({"kind": "model", "T": T, "rs": rs, "model": model, "j": j, "k": k, "d": list(DISP[1]), "toffset": 3.0})
-            for entry in ("align(stack)", "align_multi_templates", "group(list)", "group(mapping)"):
+            for entry in ("align(stack)", "align_multi_templates", "group(list)", "group(mapping)", "align_multi_templates[with_params]", "align(stack)[with_params]"):
                 if T == 1 and entry == "group(mapping)":
                     continue
                 for model in ("ZNCC", "PCC"):
@@ -321,7 +321,14 @@ def _run_loader(case):
     kind = f"T{'>1' if T > 1 else '=1'},K{'>1' if K > 1 else '=1'}"
     viol = []
     sig = lambda what: f"{ID}|loader.{entry}|{what}|{kind}"  # noqa
-    if entry == "align(stack)":
+    if entry.endswith("[with_params]"):
+        # the model class with its parameters bound in advance (Model.with_params(...)) instead of keyword arguments
+        bound = cls.with_params(**kw)
+        if entry.startswith("align(stack)"):
+            outs = [loader.align(np.stack(tm) if T > 1 else tm[0], max_shifts=ms, alignment_model=bound).molecules]
+        else:
+            outs = [loader.align_multi_templates(tm, max_shifts=ms, alignment_model=bound).molecules]
+    elif entry == "align(stack)":
         outs = [loader.align(np.stack(tm) if T > 1 else tm[0], max_shifts=ms, alignment_model=cls, **kw).molecules]
     elif entry == "align_multi_templates":
         outs = [loader.align_multi_templates(tm, max_shifts=ms, alignment_model=cls, **kw).molecules]
@@ -338,7 +345,7 @@ def _run_loader(case):
             i = int(f["uid"][r])
             j, k = pairs[i]
             seen += 1
-            if T > 1 or entry != "align(stack)":
+            if T > 1 or not entry.startswith("align(stack)"):
                 lab = int(f["labels"][r])
                 if lab != j:
                     viol.append((sig("label"), f"molecule {i} planted (template {j}, rotation {k}) of T={T}, K={K}: labels={lab}"))
